@@ -66,6 +66,59 @@ def region_effects(f, region):
     return eff
 
 
+ALLPATH_EXEMPT = {
+    "NoOp": "the notification is additionally skipped for the fake TRIGGER_TAPHOLD_COORD coordinate",
+}
+
+
+def _paths_without_notify(f, region, start):
+    """blocks from which the arm is left without passing a handle_press call, following only the
+    is_oneshot == false edge of tests on the is_oneshot parameter"""
+    pl = [l for l in range(1, f.nargs + 1) if f.local_name(l) == "is_oneshot"]
+
+    def polarity(op):
+        pol, cur = 0, op
+        for _ in range(8):
+            if not is_place(cur) or proj(cur):
+                return None
+            if cur["l"] in pl:
+                return pol
+            d = f.single_def(cur["l"])
+            if not d or d[2] != "assign":
+                return None
+            rv = d[3]
+            if rv["k"] == "un" and rv["op"] == "Not":
+                pol ^= 1
+                cur = rv["a"]
+            elif rv["k"] == "use":
+                cur = rv["a"]
+            else:
+                return None
+        return None
+    passb = {b for b in region if f.term(b)["k"] == "call" and callee_name(f.term(b)) == HANDLE_PRESS}
+    seen, stack, leak = set(), [start], []
+    while stack:
+        b = stack.pop()
+        if b in seen or b in passb:
+            continue
+        seen.add(b)
+        t = f.term(b)
+        succ = [x for x in f.succs(b) if f.term(x)["k"] != "unreachable"]
+        if t["k"] == "switch":
+            pol = polarity(t["d"])
+            if pol is not None:
+                succ = [tb for val, tb in t["ts"] if val == pol] or [t["o"]]
+        if t["k"] == "return":
+            leak.append(b)
+            continue
+        for x in succ:
+            if x not in region:
+                leak.append(b)
+            else:
+                stack.append(x)
+    return leak
+
+
 def rule_osh_arms(prog):
     res = RuleResult("R-OSH-ARMS", "every action arm tells the one-shot machinery a key was pressed, delegates, or defers", floor=21)
     f = prog.fn(DO_ACTION)
@@ -91,6 +144,16 @@ def rule_osh_arms(prog):
         res.inst("arm/" + v, how=how, blocks=len(region), explicit=v in sw.arms)
         ok = bool(how) or v in exempt
         res.oblige(ok)
+        # arms whose only way of consuming a one-shot is the notification must notify on every path on which the
+        # key is not itself a one-shot key (is_oneshot == false)
+        if how == ["notifies"] and v not in ALLPATH_EXEMPT and sw.target(v) is not None:
+            leak = _paths_without_notify(f, region, sw.target(v))
+            res.inst("arm/%s/every-path" % v, ok=not leak)
+            res.oblige(not leak)
+            if leak:
+                res.viol("arm/%s/every-path" % v, "%s:%s" % (f.file, f.line_of(leak[0])),
+                         "Action::%s leaves do_action on some path (is_oneshot == false) without calling OneShotState::handle_press: "
+                         "an active one-shot is not consumed by this key on that path" % v)
         if v not in sw.arms and sw.otherwise is not None and v not in exempt:
             res.viol("arm/%s/wildcard" % v, f.loc, "Action::%s is handled by a wildcard arm of do_action" % v)
         if not ok:
